@@ -160,7 +160,8 @@ impl PrimitiveFixedWidthEncode for TimestampTz {
 }
 
 impl PrimitiveFixedWidthEncode for Interval {
-    const WIDTH: usize = std::mem::size_of::<i32>() + std::mem::size_of::<i32>();
+    /// months, days and the sub-day part (milliseconds)
+    const WIDTH: usize = 3 * std::mem::size_of::<i32>();
     const DEFAULT_VALUE: &'static Self = &Interval::from_days(0);
 
     type ArrayType = IntervalArray;
@@ -168,12 +169,14 @@ impl PrimitiveFixedWidthEncode for Interval {
     fn encode(&self, buffer: &mut impl BufMut) {
         buffer.put_i32(self.num_months());
         buffer.put_i32(self.days());
+        buffer.put_i32(self.num_milliseconds());
     }
 
     fn decode(buffer: &mut impl Buf) -> Self {
         let months = buffer.get_i32();
         let days = buffer.get_i32();
-        Interval::from_md(months, days)
+        let ms = buffer.get_i32();
+        Interval::from_md_ms(months, days, ms)
     }
 }
 
